@@ -184,7 +184,7 @@ builtin.module {
 shape("inline-asm-att", """
 builtin.module {
   llvm.func @f(%a: i64, %b: i64) -> i64 {
-    %0 = llvm.inline_asm asm_dialect = att "mov $1, $0\\0Asub $2, $0", "=&r,r,r" %a, %b : (i64, i64) -> i64
+    %0 = llvm.inline_asm asm_dialect = att "mov $1, $0\\0Asub $2, $0", "=&r,r,r,~{flags}" %a, %b : (i64, i64) -> i64
     llvm.inline_asm has_side_effects is_align_stack "nop", "" : () -> ()
     llvm.return %0 : i64
   }
@@ -319,3 +319,72 @@ builtin.module {
     llvm.return %a : i8
   }
 }""")
+
+shape("select-between-alloca-and-null-pointer", """
+builtin.module {
+  llvm.func @f(%c: i1, %v: i32) -> i32 {
+    %one = llvm.mlir.constant(1 : i32) : i32
+    %a = llvm.alloca %one x i32 : (i32) -> !llvm.ptr
+    %b = llvm.alloca %one x i32 : (i32) -> !llvm.ptr
+    %z = llvm.mlir.zero : !llvm.ptr
+    llvm.store %v, %a : i32, !llvm.ptr
+    llvm.store %one, %b : i32, !llvm.ptr
+    %p = llvm.select %c, %a, %b : i1, !llvm.ptr
+    %q = llvm.select %c, %p, %z : i1, !llvm.ptr
+    %r = llvm.load %p : !llvm.ptr -> i32
+    llvm.return %r : i32
+  }
+}""", calls=[("f", ["i1", "i32"], "i32", [1, 99], 99), ("f", ["i1", "i32"], "i32", [0, 99], 1)])
+
+shape("inline-asm-template-with-quote", """
+builtin.module {
+  llvm.func @f(%a: i32) -> i32 {
+    %0 = llvm.inline_asm "mov $1, $0 # \\"copy\\"", "=r,r" %a : (i32) -> i32
+    llvm.return %0 : i32
+  }
+}""", calls=[("f", ["i32"], "i32", [31337], 31337)])
+
+shape("phi-of-pointers-and-loop-carried-memory", """
+builtin.module {
+  llvm.func @f(%n: i32) -> i32 {
+    %one = llvm.mlir.constant(1 : i32) : i32
+    %zero = llvm.mlir.constant(0 : i32) : i32
+    %four = llvm.mlir.constant(4 : i32) : i32
+    %a = llvm.alloca %four x i32 : (i32) -> !llvm.ptr
+    llvm.store %zero, %a : i32, !llvm.ptr
+    llvm.br ^head(%zero, %a : i32, !llvm.ptr)
+  ^head(%i: i32, %p: !llvm.ptr):
+    %c = llvm.icmp "slt" %i, %n : i32
+    llvm.cond_br %c, ^body, ^done(%p : !llvm.ptr)
+  ^body:
+    %v = llvm.load %p : !llvm.ptr -> i32
+    %w = llvm.add %v, %i : i32
+    llvm.store %w, %p : i32, !llvm.ptr
+    %j = llvm.add %i, %one : i32
+    llvm.br ^head(%j, %p : i32, !llvm.ptr)
+  ^done(%q: !llvm.ptr):
+    %r = llvm.load %q : !llvm.ptr -> i32
+    llvm.return %r : i32
+  }
+}""", calls=[("f", ["i32"], "i32", [5], 10), ("f", ["i32"], "i32", [0], 0)])
+
+shape("exotic-types", """
+builtin.module {
+  llvm.func @f(%v: f32, %c: i1) -> f32 {
+    %one = llvm.mlir.constant(1 : i32) : i32
+    %a = llvm.alloca %one x complex<f32> : (i32) -> !llvm.ptr
+    %b = llvm.alloca %one x tuple<i32, f32> {alignment = 8 : i64} : (i32) -> !llvm.ptr
+    %g = llvm.getelementptr %a[0] : (!llvm.ptr) -> !llvm.ptr, f32
+    llvm.store %v, %g : f32, !llvm.ptr
+    %r = llvm.load %g : !llvm.ptr -> f32
+    %u0 = llvm.mlir.undef : !llvm.func<i32 (i32, ...)>
+    %u1 = llvm.mlir.undef : (i32, f64) -> i32
+    %u2 = llvm.mlir.undef : () -> ()
+    %u3 = llvm.mlir.undef : complex<f64>
+    %u4 = llvm.mlir.undef : tuple<i8, tuple<i16, f64>>
+    %u5 = llvm.mlir.undef : !llvm.struct<"named", (i32, !llvm.ptr<3>)>
+    %s = llvm.select %c, %u3, %u3 : i1, complex<f64>
+    %t = llvm.select %c, %u4, %u4 : i1, tuple<i8, tuple<i16, f64>>
+    llvm.return %r : f32
+  }
+}""", calls=[("f", ["f32", "i1"], "f32", [0x40490FDB, 1], 0x40490FDB)])
